@@ -215,6 +215,12 @@ impl OutputBuffer {
         OutputBuffer(b"AMQP\x00\x00\x09\x01".to_vec())
     }
 
+    /// Verification hook: a buffer holding exactly these bytes.
+    #[cfg(amiquip_verif)]
+    pub(crate) fn verif_from_bytes(bytes: Vec<u8>) -> OutputBuffer {
+        OutputBuffer(bytes)
+    }
+
     pub(crate) fn empty() -> OutputBuffer {
         OutputBuffer(Vec::new())
     }
